@@ -78,6 +78,7 @@ func wrapText(t string, w int, eol string) string {
 }
 
 func genC05(tier string, r *rng) {
+	genPem(tier, r.fork()) // tie of the concrete pem.Decode model (Model/Pem.lean) to the library and to file.PEMFile
 	// the ASN.1 objects: DER fixtures, PEM fixtures' bodies, freshly generated certificates and keys
 	var ders [][]byte
 	for _, s := range fixturesOf("der") {
